@@ -702,6 +702,74 @@ Section Envelope.
                   end) steps.
 End Envelope.
 
+(* ------------------------------------------------------------------ *)
+(* one transport string decoded several times                           *)
+
+(* what get_func_attr hands out: objects the caller (or the called function) may change in
+   place -- the callable with its state, the argument list and the lists/dicts in it, the
+   keyword dict and the lists/dicts in it *)
+Record dres := mkDres { r_func : Z; r_args : list val; r_kw : list (string * val) }.
+
+Inductive rmut :=
+| MArgsAppend (v : val)                         (* args.append(v) *)
+| MArgNested  (i : nat) (e : atom)              (* args[i].append(e)        (a nested list) *)
+| MKwSet      (k : string) (v : val)            (* kwargs[k] = v *)
+| MKwDel      (k : string)                      (* del kwargs[k] *)
+| MKwNested   (k key : string) (e : atom)       (* kwargs[k][key] = e       (a nested dict) *)
+| MFuncState  (z : Z).                          (* func.state = z *)
+
+Fixpoint nth_upd {A} (i : nat) (f : A -> A) (l : list A) : list A :=
+  match l, i with
+  | [], _ => []
+  | x :: r, O => f x :: r
+  | x :: r, S j => x :: nth_upd j f r
+  end.
+
+Fixpoint del_key {A} (k : string) (d : list (string * A)) : list (string * A) :=
+  match d with
+  | [] => []
+  | (k', v) :: r => if String.eqb k k' then r else (k', v) :: del_key k r
+  end.
+
+Definition apply_mut (m : rmut) (r : dres) : dres :=
+  match m with
+  | MArgsAppend v => mkDres (r_func r) (r_args r ++ [v]) (r_kw r)
+  | MArgNested i e => mkDres (r_func r) (nth_upd i (fun v => app_val v EmptyString e) (r_args r)) (r_kw r)
+  | MKwSet k v => mkDres (r_func r) (r_args r) (set k v (r_kw r))
+  | MKwDel k => mkDres (r_func r) (r_args r) (del_key k (r_kw r))
+  | MKwNested k key e =>
+      mkDres (r_func r) (r_args r)
+             (match lookup k (r_kw r) with Some v => set k (app_val v key e) (r_kw r) | None => r_kw r end)
+  | MFuncState z => mkDres z (r_args r) (r_kw r)
+  end.
+
+Inductive rop :=
+| RDecode                                  (* get_func_attr(w) once more *)
+| RMutate (i : nat) (m : rmut).            (* change the result of the i-th decode in place *)
+
+(* The decoder of the code: every call builds its result from the string alone.  State: the
+   results handed out so far (they live on, and are mutated, in the caller's hands); second
+   component: what each decode returned, at the time it returned. *)
+Fixpoint run_fresh (x : dres) (ops : list rop) (store : list dres) : list dres * list dres :=
+  match ops with
+  | [] => (store, [])
+  | RDecode :: r => let '(st, rets) := run_fresh x r (store ++ [x]) in (st, x :: rets)
+  | RMutate i m :: r => run_fresh x r (nth_upd i (apply_mut m) store)
+  end.
+
+(* A decoder that keeps the decoded object per string and hands out list(args) (a shallow
+   copy) and the kept kwargs dict and callable themselves: every result shares the nested
+   lists, the keyword dict and the callable with the kept object.  Not the code -- the
+   contrast that shows what the statement below excludes. *)
+Definition shares (m : rmut) : bool := match m with MArgsAppend _ => false | _ => true end.
+
+Fixpoint run_cached (kept : dres) (ops : list rop) : list dres :=
+  match ops with
+  | [] => []
+  | RDecode :: r => kept :: run_cached kept r
+  | RMutate _ m :: r => run_cached (if shares m then apply_mut m kept else kept) r
+  end.
+
 (* utils.serializer.serialize_obj on a callable: by value (dill.dumps(obj)); if that raises
    -- whatever it raises -- by reference (dill.dumps(obj, byref=True)); if that raises too,
    SerializationError.  None = the attempt raises. *)
